@@ -9,6 +9,7 @@ package c14
 // (single, and as an element of a bt.Txs list) carries the current hex / type / asm.
 
 import (
+	"bytes"
 	"encoding/hex"
 	"encoding/json"
 	"fmt"
@@ -119,6 +120,15 @@ func checkHistory(ctx *pbt.Ctx, c History) error {
 		}
 		if err := checkNodeJSON(ctx, tx, model, c.In, a); err != nil {
 			return fmt.Errorf("after step %d (%s): %v", at, why, err)
+		}
+		// the answers are functions of the bytes: a fresh object holding the same bytes must say the same
+		f := bscript.NewFromBytes(append([]byte(nil), model...))
+		fasm, _ := f.ToASM()
+		fpkh, _ := f.PublicKeyHash()
+		fadr, _ := f.Addresses()
+		if ft := f.ScriptType(); ft != a.typ || fasm != a.asm || !bytes.Equal(fpkh, a.pkh) || fmt.Sprint(fadr) != fmt.Sprint(a.addrs) {
+			return fmt.Errorf("after step %d (%s): the long-lived object %s answers type %q asm %q pkh %x addresses %v; a fresh object with the same bytes answers type %q asm %q pkh %x addresses %v",
+				at, why, short(model), a.typ, short([]byte(a.asm)), a.pkh, a.addrs, ft, short([]byte(fasm)), fpkh, fadr)
 		}
 		// the list entry point must print the same transaction twice (first and last look only)
 		if at != 0 && at != len(c.Steps) {
